@@ -66,7 +66,7 @@ def valid_value(r, e):
         mn = e.get("min", 0)
         mx = e["max"] if e["max"] is not None else 60
         opts = [mx, mn, round(r.uniform(mn, mx), r.choice([0, 1, 3])), r.uniform(mn, mx)]
-        if mn == 0:
+        if mn <= 0:
             opts.append(0)
         v = r.choice(opts)
         return min(max(v, mn), mx)
